@@ -14,11 +14,34 @@ def check(ctx):
     from ..lib import discarded_results
     ctx.sub(discarded_results, 'C16.S2', ('qstrader/signals/',), 'windows hold what the code actually ordered and trimmed')
     ctx.sub(cadence, 'C16.S1')
+    ctx.sub(shared_tables)
     ctx.sub(s2_keys)
     ctx.sub(s3_slots)
     ctx.sub(s4_entry)
     from . import c19
     ctx.sub(c19.s1_membership)      # "an asset that enters a dynamic universe later": the universe reports it from its entry instant on, statelessly
+
+
+def shared_tables(ctx):
+    """the windows and what is derived from them belong to ONE buffers object: a table written in a class body of the signals package and never rebound per instance is
+    shared by every buffers/signal object of the process (another collection, another session), and so is whatever is memoised in it"""
+    from ..lib import class_level_table
+    n = 0
+    for c in ctx.M.classes.values():
+        if not c.path.startswith('qstrader/signals/'):
+            continue
+        for name, v in c.class_attrs.items():
+            if isinstance(v, (ast.Dict, ast.List, ast.Set)) or (isinstance(v, ast.Call) and isinstance(v.func, ast.Name) and v.func.id in ('dict', 'list', 'set', 'defaultdict', 'OrderedDict', 'deque')):
+                n += 1
+                written = any(isinstance(n_, ast.Subscript) and isinstance(n_.ctx, (ast.Store, ast.Del)) and isinstance(n_.value, ast.Attribute) and n_.value.attr == name
+                              for m_ in c.methods.values() for n_ in ast.walk(m_.node)) or \
+                    any(isinstance(n_, ast.Call) and isinstance(n_.func, ast.Attribute) and n_.func.attr in ('append', 'extend', 'update', 'add', 'setdefault', 'pop', 'clear', 'insert', 'appendleft')
+                        and isinstance(n_.func.value, ast.Attribute) and n_.func.value.attr == name for m_ in c.methods.values() for n_ in ast.walk(m_.node))
+                if class_level_table(ctx.M, c, name) and written:
+                    ctx.violation('C16.S2', 'every buffers object keeps its own windows and what it derives from them', c.path,
+                                  'READ: %s.%s is a container written in the class body, filled by the methods and never rebound per instance: every %s of the process shares it'
+                                  % (c.name, name, c.name), key='C16.S2|shared|%s.%s' % (c.name, name))
+    ctx.holds('C16.S2', 'no table of the signals package is shared between objects through a class body (%d class-level containers examined)' % n, None)
 
 
 # ------------------------------------------------------------------------------------------------ S1
